@@ -120,7 +120,44 @@ def run(ck, prog, ctx):
             ck.ob("DOM", "link_%s_term/links" % stem, False, "link_%s_term does not link the %s to the term itself" % (stem, K), where=lb.where())
             continue
         if not recs:
-            ck.undecided("DOM", "link_%s_term/propagation" % stem, "no recursive propagation call (iterative form?)", where=lb.where())
+            # iterative (work-list) form: the `already present` edge may end the visit of THAT term only - it must stay inside the loop;
+            # the `was new` side must feed the term's ancestors (direct parents or the closure) back into the work list
+            abi0, at0 = adds[0]
+            lp = lb.loop_of(abi0)
+            if lp is None:
+                ck.ob("DOM", "link_%s_term/propagation" % stem, False, "link_%s_term neither recurses nor loops: the %s never reaches the ancestors" % (stem, K), where=lb.where())
+                continue
+            header, blocks = lp
+            pos_e = positive_edges(lb, pvn, abi0)
+            ok_neg = True
+            line = at0.line
+            for (sbi, tg) in pos_e:
+                x = lb.blocks[sbi].term
+                for o in x.successors():
+                    if o == tg:
+                        continue
+                    # from the `already present` target: can a return be reached without coming back to the loop header?
+                    seen, st = set(), [o]
+                    while st:
+                        y = st.pop()
+                        if y in seen or y == header:
+                            continue
+                        seen.add(y)
+                        if lb.blocks[y].term.k == "return":
+                            ok_neg = False
+                        st.extend(lb.succ[y])
+            ck.ob("DOM", "link_%s_term/propagation" % stem, ok_neg, "link_%s_term (work-list form) %s" % (stem, "continues with the remaining work when an id was already present" if ok_neg else "RETURNS from the whole walk when one term already carries the id: terms still on the work list are never linked"), where=lb.where(line))
+            fed = set()
+            for bi2, t2 in lb.calls():
+                if bi2 in blocks and t2.callee.method in ("extend", "push", "append", "extend_from_slice", "insert", "push_back") and len(t2.args) > 1:
+                    fed |= field_names(pv.of_operand(lb, t2.args[1]), "HpoTermInternal") & {"parents", "all_parents", "children"}
+            ck.ob("DOM", "link_%s_term/over-closure" % stem, bool(fed) and "children" not in fed, "the work list is fed with the term's %s" % (sorted(fed) or "nothing"), where=lb.where())
+            key = set()
+            for a in pvn.of_operand(lb, at0.args[0]):
+                if a[0] == "call" and a[3] == lb.id and "termarena::Arena::get" in a[1]:
+                    key |= {1}
+            ida = params_of(pvn.of_operand(lb, at0.args[1]), lb.id)
+            ck.ob("DOM", "link_%s_term/links" % stem, ida == {3}, "link_%s_term adds record `%s` to every visited term" % (stem, "/".join(lb.local_name(p) for p in ida)), where=lb.where(at0.line))
             continue
         abi, at_ = adds[0]
         pos_e = positive_edges(lb, pvn, abi)
